@@ -23,8 +23,15 @@ def check_accepts(acc, spec, L, morph=False, prev=None, epsilon='ε'):
         words_L = list(spaces.words(list(spec[2]), L)) if list(spec[2]) != ['a', 'b'] else WORDS[L]
     lang, _ = cfg.language(spec, L)
     acc.states += 1
+    import zlib
+    verbose = (not morph) and zlib.crc32(repr(spec).encode()) % 4 == 0      # a function of the instance, so a replay asks the same way
     for w in words_L:
-        ok, got = core.lib_call(acc, 'cfg_accepts_word', dict(inst, word=w), cfg_accepts_word, G, w, repro=rp)
+        if verbose:
+            # the diagnostic keyword: same question, more output
+            with core.captured_stdout():
+                ok, got = core.lib_call(acc, 'cfg_accepts_word', dict(inst, word=w, verbose=True), cfg_accepts_word, G, w, True, repro=rp)
+        else:
+            ok, got = core.lib_call(acc, 'cfg_accepts_word', dict(inst, word=w), cfg_accepts_word, G, w, repro=rp)
         acc.transitions += 1
         if not ok:
             continue
